@@ -131,7 +131,14 @@ def gen_churn(rng):
             lines.append(f'op remove {o}')
         if rng.random() < 0.3:
             lines.append(f'op dispatch {rng.choice(evs)} {rng.choice(ARGS)}')
+        paused = o + 1 < n and rng.random() < 0.3
+        if paused:
+            # an event announced while dispatching is paused and nobody listens any more, released once the
+            # next listener is there
+            lines += ['op enable 0', f'op dispatch {rng.choice(evs)} {rng.choice(ARGS)}']
         if o + 1 < n:
             lines.append(f'op ishandler {o + 1}')
+        if paused:
+            lines += [f'op add {o + 1}', 'op enable 1']
     lines.append(f'op dispatch {rng.choice(evs)} {rng.choice(ARGS)}')
     return lines
